@@ -82,3 +82,72 @@ def replay_assign_pages(index, ob, seed, saved=None):
                                     "observed_pages": pages, "violated_clauses": bad, "tried": tried,
                                     "how": "bounded concrete search on the real PageBreakCalculator._assign_pages (n<=5, heights 1..3)"}
     return {"found": False, "tried": tried}
+
+
+def replay_row_metadata(index, ob, seed, saved=None):
+    """calculate_row_metadata on the real code (small frames): group / subline start flags are exactly the key changes over ALL key
+    columns, data_rows >= 1, total_rows = data_rows + pageby_header_rows, heading rows only at group starts."""
+    import polars as pl
+    core = index.real_module("rtflite.pagination.core")
+    rtf = index.real_module("rtflite")
+    cases = []
+    keysets = [(["A", "A", "B", "B"], ["x", "y", "y", "y"]), (["A", "B", "B", "C"], ["x", "x", "x", "x"]), (["A", "A", "A", "A"], ["x", "x", "y", "y"]),
+               (["A", "B", "A", "B"], ["q", "q", "q", "q"])]
+    for g, h in keysets:
+        for pb, sb in ((["g", "h"], None), (["g"], None), (["h"], ["g"]), (None, ["g", "h"])):
+            cases.append({"g": g, "h": h, "page_by": pb, "subline_by": sb})
+    for case in cases:
+        if saved is not None and case != saved.get("input", saved):
+            continue
+        g, h = case["g"], case["h"]
+        df = pl.DataFrame({"g": g, "h": h, "x": [f"r{i}" for i in range(len(g))]})
+        calc = core.PageBreakCalculator(pagination=core.RTFPagination(page_width=8.5, page_height=11, margin=[1] * 6, nrow=40, orientation="portrait"))
+        attrs = rtf.RTFBody()._set_default() if hasattr(rtf.RTFBody(), "_set_default") else rtf.RTFBody()
+        try:
+            out = calc.calculate_row_metadata(df=df, col_widths=[2.0, 4.0, 6.0], page_by=case["page_by"], subline_by=case["subline_by"], table_attrs=attrs,
+                                              removed_column_indices=[], additional_rows_per_page=0, new_page=False)
+        except Exception as e:
+            return {"found": True, "input": case, "observed": f"{type(e).__name__}: {e}"}
+        n = len(g)
+        key = lambda cols, k: tuple(str(df[c][k]) for c in cols)
+        for flag, cols in (("is_group_start", case["page_by"]), ("is_subline_start", case["subline_by"])):
+            got = out[flag].to_list()
+            want = [bool(cols) and (k == 0 or key(cols, k) != key(cols, k - 1)) for k in range(n)]
+            if got != want:
+                return {"found": True, "input": case, "observed": f"{flag} = {got}, key changes are {want}"}
+        dr, pr, tr = out["data_rows"].to_list(), out["pageby_header_rows"].to_list(), out["total_rows"].to_list()
+        if any(x < 1 for x in dr) or any(t != a + b for t, a, b in zip(tr, dr, pr)):
+            return {"found": True, "input": case, "observed": f"data_rows {dr}, pageby_header_rows {pr}, total_rows {tr}"}
+        gs = out["is_group_start"].to_list()
+        if any(p > 0 and not s for p, s in zip(pr, gs)):
+            return {"found": True, "input": case, "observed": f"heading rows {pr} outside group starts {gs}"}
+    return {"found": False, "tried": len(cases)}
+
+
+def replay_reserved_rows(index, ob, seed, saved=None):
+    """calculate_additional_rows_per_page on the real code: [subline_by] + #headers with own text + [footnote text] + [source text]."""
+    import itertools
+    import polars as pl
+    rtf = index.real_module("rtflite")
+    ds = index.real_module("rtflite.services.document_service").RTFDocumentService()
+    df = pl.DataFrame({"g": ["A", "B"], "x": ["1", "2"]})
+    for sub, nhdr, foot, src, pf, ps in itertools.product((False, True), (0, 1, 2), (False, True), (False, True), ("first", "last", "all"), ("first", "last", "all")):
+        case = {"subline_by": sub, "headers_with_text": nhdr, "footnote": foot, "source": src, "page_footnote": pf, "page_source": ps}
+        if saved is not None and case != saved.get("input", saved):
+            continue
+        kw = {}
+        if foot:
+            kw["rtf_footnote"] = rtf.RTFFootnote(text="fn")
+        if src:
+            kw["rtf_source"] = rtf.RTFSource(text="src")
+        hdrs = [rtf.RTFColumnHeader(text=["G", "X"] if not sub else ["X"]) for _ in range(nhdr)] or [rtf.RTFColumnHeader()]
+        try:
+            doc = rtf.RTFDocument(df=df, rtf_page=rtf.RTFPage(page_footnote=pf, page_source=ps), rtf_body=rtf.RTFBody(subline_by=["g"] if sub else None),
+                                  rtf_column_header=hdrs, **kw)
+            got = ds.calculate_additional_rows_per_page(doc)
+        except Exception as e:
+            return {"found": True, "input": case, "observed": f"{type(e).__name__}: {e}"}
+        want = int(sub) + nhdr + int(foot) + int(src)
+        if got != want:
+            return {"found": True, "input": case, "observed": f"reserved {got} rows, expected {want}"}
+    return {"found": False}
